@@ -52,7 +52,7 @@ func WriteEvidence(sc Scenario, tier string, seed uint64, a *aggregate, wall flo
 	if len(a.infra) > 0 {
 		ev["infrastructure_trouble"] = a.infra
 	}
-	path := filepath.Join(Root(), "evidence", sc.ID()+".json")
+	path := filepath.Join(OutDir(), "evidence", sc.ID()+".json")
 	os.MkdirAll(filepath.Dir(path), 0o755)
 	b, err := json.MarshalIndent(ev, "", " ")
 	if err != nil {
